@@ -173,7 +173,7 @@ package sftp
 //@   requires c != nil && c.inflight != nil && c.WriteCloser != nil && ctx != nil && p != nil
 //@   requires ghost.idFresh && p.id() == ghost.lastID
 //@   ensures !ghost.idFresh
-//@   modifies bytes, mapof c.inflight, ghost.idFresh, ghost.consumeOK, ghost.consumeSid
+//@   modifies bytes, mapof c.inflight, ghost.idFresh, ghost.consumeOK, ghost.consumeSid, ghost.swErr
 //@   channel global:type:sftp.result invariant m.err == nil ==> len(m.data) >= 4
 //@   ensures err == nil ==> len(data) >= 4
 //@   assert after select#1: ret0 == 0 || (ret0 == 1 && arg1 == ch)
@@ -227,7 +227,7 @@ package sftp
 //@   property C03, C15
 //@   requires c != nil && c.WriteCloser != nil && m != nil
 //@   assert before call sendPacket#1: locked(&c.Mutex)
-//@   modifies bytes
+//@   modifies bytes, ghost.swErr
 // (header and payload of one packet are written while the connection's write lock is held)
 
 // ---------------------------------------------------------------------------
@@ -1705,7 +1705,7 @@ package sftp
 //@   assert before send ch#1: arg0 == ghost.routed && m_err_nonnil(arg1)
 // (a send error is delivered on the channel that is registered for the id at that moment -- broadcastErr may have
 //  replaced the caller's own channel after notifying it -- so every waiting caller is notified exactly once)
-//@   modifies bytes, mapof c.inflight, ghost.idFresh, ghost.consumeOK, ghost.consumeSid
+//@   modifies bytes, mapof c.inflight, ghost.idFresh, ghost.consumeOK, ghost.consumeSid, ghost.swErr
 
 //@ ghost var bSent int
 //@ ghost var bRepl int
